@@ -86,23 +86,24 @@ def _train(case, df, meta, order, shuffle, probe, probe2, tmp, tag, keep_index=F
         d = d.assign(Label=d["Label"].astype(int))  # 1/0 integers: documented to be coerced to booleans
     ds = mokapot.LinearPsmDataset(d, target_column="Label", spectrum_columns=meta["key_cols"], peptide_column="Peptide",
                                   protein_column="Proteins", feature_columns=feats, copy_data=True)
-    if prefit_fdr is not None:
-        # history: the same dataset object was fitted before at a neighbouring threshold (a threshold sweep)
-        pre_log = "c12_pre_" + uuid.uuid4().hex
-        recorder.new_log(pre_log)
-        try:
-            pre = mokapot.Model(recorder.Centroid(log=pre_log, iface=case["iface"]), scaler="as-is", train_fdr=prefit_fdr, max_iter=1,
-                                override=True, shuffle=shuffle, rng=case["model_rng"] + 1, direction=case.get("direction"))
-            try:
-                guarded(pre.fit, ds, allowed=[(RuntimeError, "No PSMs accepted at train_fdr|No PSMs found below|Model performs worse")], sig="Model.fit")
-            except Rejected:
-                pass
-        finally:
-            recorder.drop_log(pre_log)
+    pre = pre_pred = None
     logname = "c12_" + uuid.uuid4().hex
     recorder.new_log(logname)
+    shared_est = recorder.Centroid(log=logname, iface=case["iface"])
+    if prefit_fdr is not None:
+        # history: the same dataset object was fitted before at a neighbouring threshold (a threshold sweep), by a model
+        # built from the very estimator instance the observed model is built from (Model keeps its own clone)
+        pre = mokapot.Model(shared_est, scaler="as-is", train_fdr=prefit_fdr, max_iter=1,
+                            override=True, shuffle=shuffle, rng=case["model_rng"] + 1, direction=case.get("direction"))
+        try:
+            guarded(pre.fit, ds, allowed=[(RuntimeError, "No PSMs accepted at train_fdr|No PSMs found below|Model performs worse")], sig="Model.fit")
+            pre_pred = np.asarray(guarded(pre.predict, probe, sig="Model.predict"), dtype=float)
+        except Rejected:
+            pre = None
+        recorder.drop_log(logname)
+        recorder.new_log(logname)
     try:
-        est = recorder.Centroid(log=logname, iface=case["iface"])
+        est = shared_est
         if case.get("search"):
             # hyper-parameter search wrapper, as PercolatorModel uses: the search fits clones on row subsets first
             from sklearn.model_selection import GridSearchCV, KFold
@@ -122,6 +123,11 @@ def _train(case, df, meta, order, shuffle, probe, probe2, tmp, tag, keep_index=F
         loaded = guarded(mokapot.load_model, path, sig="load_model")
         p3 = np.asarray(guarded(loaded.predict, probe, sig="Model.predict"), dtype=float)
         p4 = np.asarray(guarded(loaded.predict, probe2, sig="Model.predict"), dtype=float)
+        if pre is not None and pre_pred is not None:
+            again = np.asarray(guarded(pre.predict, probe, sig="Model.predict"), dtype=float)
+            require(np.array_equal(again, pre_pred), "model-changed-by-other-fit",
+                    f"{tag}: a fitted model predicts differently (max diff {float(np.max(np.abs(again - pre_pred))):.3g}) after another "
+                    f"model built from the same estimator instance was fitted")
     finally:
         recorder.drop_log(logname)
     return events[:n_fit_events], (p1, p2, p1b, p3, p4), model
@@ -224,7 +230,8 @@ def check(case):
                             f"current scores (missing {sorted(acc - pos - amb)[:3]}, extra {sorted(pos - acc - amb)[:3]})")
                 it += 1
                 counters["fit_calls_checked"] += 1
-            require(it == case["max_iter"] + (0 if True else 0) or it >= 1, "fit-count", f"{tag}: {it} fit calls")
+            require(it == case["max_iter"], "fit-count",
+                    f"{tag}: the estimator was fitted {it} times for max_iter={case['max_iter']} (every iteration re-labels and re-fits)")
             results[tag] = preds
     if failed and any("No PSMs accepted at train_fdr" in m or "No PSMs found below" in m for m in failed.values()):
         # the rejection claims that no target is accepted at the training FDR under the initial direction: verify
